@@ -29,6 +29,12 @@ type progGen struct {
 	comps  refint.Files
 	wComp  int
 	inComp bool // inside a component file or slot body: no further uses (only uses written in a page are in the domain)
+	// layout mode (non-nil): the block being generated is a layout file; reserves are
+	// emitted at any nesting position and the insert that fills each is generated on
+	// the spot - its body runs in the layout's block at the reserve's place
+	inserts  []*tw.Stmt
+	wReserve int
+	inUse    int // inside a component use (file or slot body): no reserves there
 	// what the program contains, for non-triviality rules
 	Feat map[string]int
 }
@@ -265,6 +271,8 @@ func (g *progGen) compStmt(depth int) *tw.Stmt {
 	g.Feat["component"]++
 	loopDepth, eachBody := g.loopDepth, g.eachBody
 	g.loopDepth, g.eachBody, g.inComp = 0, false, true
+	g.inUse++
+	defer func() { g.inUse-- }()
 	var keys []string
 	var vals []*tw.Expr
 	kinds := map[string]refint.Kind{}
@@ -330,6 +338,42 @@ func (g *progGen) compStmt(depth int) *tw.Stmt {
 	g.loopDepth, g.eachBody, g.inComp = loopDepth, eachBody, false
 	g.comps[name] = body
 	return st
+}
+
+// reserveStmt emits @reserve("rN") and generates what the page inserts there:
+// a block body (generated as if it stood at this place of the layout: it is
+// evaluated in the block that holds the reserve), an expression, or nothing.
+func (g *progGen) reserveStmt(depth int) []*tw.Stmt {
+	name := fmt.Sprintf("r%d", g.Feat["reserve"])
+	g.Feat["reserve"]++
+	if len(g.scopes) > 1 {
+		g.Feat["reserve-nested"]++
+	}
+	res := &tw.Stmt{Kind: tw.SReserve, Name: name}
+	switch rapid.IntRange(0, 7).Draw(g.rt, "insertForm") {
+	case 0:
+		g.Feat["reserve-not-inserted"]++
+	case 1:
+		g.inserts = append(g.inserts, &tw.Stmt{Kind: tw.SInsert, Name: name, E: g.printable()})
+	default:
+		loopDepth := g.loopDepth
+		g.loopDepth = 0 // control directives of an insert reaching the layout's loops: not generated
+		wr, wc := g.wReserve, g.wComp
+		g.wReserve, g.wComp = 0, 2 // a use written in the page (uses written in a layout file are not in the domain)
+		before := g.Feat["nested-assign"]
+		body := g.block(max(depth-1, 0), false)
+		if rapid.Bool().Draw(g.rt, "insertAssigns") {
+			body = append(body, g.assign())
+		}
+		if len(g.scopes) > 1 && g.Feat["nested-assign"] > before {
+			g.Feat["insert-assigns-in-nested-block"]++
+		}
+		g.wReserve, g.wComp = wr, wc
+		g.loopDepth = loopDepth
+		g.inserts = append(g.inserts, &tw.Stmt{Kind: tw.SInsert, Name: name, Block: true, Body: body})
+	}
+	// the text after a reserve never starts with '(' (it would read as arguments)
+	return []*tw.Stmt{res, tw.Text(";")}
 }
 
 func (g *progGen) read() *tw.Stmt {
@@ -731,6 +775,10 @@ func (g *progGen) block(depth int, _ bool) []*tw.Stmt {
 		total := 4 + g.wIf + g.wLoop + g.wAssign + wCtl
 		if g.comps != nil && depth > 0 && !g.inComp {
 			total += g.wComp
+		}
+		if g.wReserve > 0 && g.inUse == 0 && rapid.IntRange(0, 19).Draw(g.rt, "reserveHere") < g.wReserve {
+			out = append(out, g.reserveStmt(depth)...)
+			continue
 		}
 		x := rapid.IntRange(0, total-1).Draw(g.rt, "stmtFamily")
 		switch {
